@@ -170,7 +170,7 @@ pub fn resolve_data_element(
     }
 
     
-    if Some(&prev_encoding) != maybe_encoding.as_ref()
+    if !maybe_encoding.as_ref().map_or(false, |e| e.is_identical(&prev_encoding))
     {
         // On the final iteration, unstable guesses become errors
         if ctx.is_last_iteration
